@@ -35,6 +35,7 @@ Proof. destruct v; cbn [to_display]; try discriminate; [destruct b; discriminate
 Lemma binary_op_np op l r : binary_op op l r <> Panic.
 Proof.
   unfold binary_op. pose proof (to_f64_np l) as Hl. pose proof (to_f64_np r) as Hr.
+  destruct (is_date l || is_date r); [discriminate|].
   destruct (to_f64 l), (to_f64 r); try discriminate; congruence.
 Qed.
 
@@ -53,8 +54,8 @@ Proof.
   - unfold vmul. destruct (int_text a), (int_text b); cbn [vmul_typed]; try apply binary_op_np; try discriminate;
       match goal with |- context[in_i32 ?x] => destruct (in_i32 x) end;
       try apply mk_dur_np; discriminate.
-  - destruct a, b; cbn [vdiv]; try apply binary_op_np.
-    destruct (in_i32 z && negb (z =? 0)%Z); discriminate.
+  - unfold vdiv. destruct a, (int_text b); cbn [vdiv_typed]; try apply binary_op_np.
+    match goal with |- context[in_i32 ?x && _] => destruct (in_i32 x && negb (x =? 0)%Z) end; discriminate.
 Qed.
 
 Lemma concat_displays_np args : concat_displays args <> Panic.
